@@ -37,7 +37,7 @@ PIPES: Dict[str, List[str]] = {
     "keyword-only": ["src", "kwmul3", "kwtwo_cfg", "kwgainprobe"],
 }
 PIPE_CTX: Dict[str, Dict[str, Any]] = {"context-key-bound": {"x_values": [0.0, 1.0, 2.0], "y_values": [1.0, 3.0, 7.0]}, "keyword-only": {"factor": 5.0}}
-WAYS = ["reused-pipeline", "fresh-pipelines", "cli-launch", "queue-worker"]
+WAYS = ["reused-pipeline", "fresh-pipelines", "cli-launch", "queue-worker", "reused-pipeline-traced", "fresh-pipelines-traced", "cli-launch-traced"]
 
 
 def nodes_for(pipe: str) -> List[dict]:
@@ -89,8 +89,20 @@ def run_way(pipe: str, way: str, n: int) -> dict:
     elif way == "fresh-pipelines":
         for _ in range(n):
             once(Pipeline(cfg.nodes))
-    elif way == "cli-launch":
+    elif way == "reused-pipeline-traced":
+        from semantiva.trace.drivers.jsonl import JsonlTraceDriver
+
+        p = Pipeline(cfg.nodes, trace=JsonlTraceDriver(os.path.join(scratch, "tdir"), detail="all"))
+        for _ in range(n):
+            once(p)
+    elif way == "fresh-pipelines-traced":
+        from semantiva.trace.drivers.jsonl import JsonlTraceDriver
+
+        for i in range(n):
+            once(Pipeline(cfg.nodes, trace=JsonlTraceDriver(os.path.join(scratch, "tfiles", f"t{i % 7}.ser.jsonl"))))
+    elif way in ("cli-launch", "cli-launch-traced"):
         y = {"extensions": ["verif_lib"], "pipeline": {"nodes": nodes_for(pipe)},
+             **({"trace": {"driver": "jsonl", "output_path": os.path.join(scratch, "tdir")}} if way.endswith("-traced") else {}),
              "run_space": {"max_runs": n + 1, "blocks": [{"mode": "by_position", "context": {"zz": [float(i) for i in range(n)],
                                                                                         **{k: [copy.deepcopy(v) for _ in range(n)] for k, v in PIPE_CTX.get(pipe, {}).items()}}}]}}
         yp = cli.write_yaml(os.path.join(scratch, "p.yaml"), y)
@@ -164,10 +176,11 @@ def compare(pipe: str, way: str, res: dict) -> List[Tuple[str, str, dict]]:
         dc = b.get("transport_channels", 0) - a.get("transport_channels", 0)
         runs_between = int(k) - int(ks[0])
         if dm > 0:
-            out.append((f"transport-messages-accumulate|{way}", f"{pipe}/{way}: undrained messages in in-memory transports grow from {a.get('transport_messages')} to "
+            # (the residue is identified by who holds the transport — a reused Pipeline, a CLI launch — with or without a trace driver)
+            out.append((f"transport-messages-accumulate|{way.replace('-traced', '')}", f"{pipe}/{way}: undrained messages in in-memory transports grow from {a.get('transport_messages')} to "
                         f"{b.get('transport_messages')} between run {ks[0]} and run {k} ({dm / runs_between:.2f} per run)", case))
         if dc > 0:
-            out.append((f"transport-channels-accumulate|{way}", f"{pipe}/{way}: channels kept by in-memory transports grow from {a.get('transport_channels')} to "
+            out.append((f"transport-channels-accumulate|{way.replace('-traced', '')}", f"{pipe}/{way}: channels kept by in-memory transports grow from {a.get('transport_channels')} to "
                         f"{b.get('transport_channels')} between run {ks[0]} and run {k} ({dc / runs_between:.2f} per run)", case))
         obj_growth = {t: b["objects"].get(t, 0) - a["objects"].get(t, 0) for t in set(a["objects"]) | set(b["objects"])}
         # growth "with the number of runs": at least one object per 20 runs of some type; a free-running master / worker
@@ -196,7 +209,8 @@ def _worker(chunk):
 def check(tier: str, seed: int) -> Result:
     n = 150 if tier == "quick" else 450
     pipes = list(PIPES) if tier == "thorough" else ["plain-op", "context-processors", "slicers", "sweep-op", "payload-source-sink", "failing", "context-key-bound"]
-    jobs = [(p, w, n) for p in pipes for w in WAYS if not (p == "failing" and w == "cli-launch")]
+    traced_pipes = {"plain-op", "context-processors", "failing", "sweep-op"}
+    jobs = [(p, w, n) for p in pipes for w in WAYS if not (p == "failing" and w.startswith("cli-launch")) and not (w.endswith("-traced") and p not in traced_pipes)]
     jobs = core.seeded_order(jobs, seed)
     viols: List[Violation] = []
     samples = []
